@@ -1162,6 +1162,55 @@ def o_qhull(mir, tier, seed):
     return dict(theory='structural (opaque points, every concrete index pair for n = 4, 5, 6; no symbolic branch)', functions=['convex_hull::qhull::quick_hull', 'convex_hull::swap_with_first_and_remove'], paths=npaths, status=st, info=info, model=None, replay=('quick_hull_extremes', ''))
 
 
+# ---- C01: the named predicates read the matrix by the OGC masks
+
+@obligation('C01', 'named_predicates_match_masks', 'for ANY DE-9IM matrix (nine entries, each F / 0 / 1 / 2): is_disjoint = FF*FF****, is_intersects = its negation, is_within = T*F**F***, is_contains = T*****FF*, is_coveredby = T*F**F*** | *TF**F*** | **FT*F*** | **F*TF***, is_covers = T*****FF* | *T****FF* | ***T**FF* | ****T*FF*, is_touches = FT******* | F**T***** | F***T**** (row-major II IB IE BI BB BE EI EB EE; T = not F)')
+def o_masks(mir, tier, seed):
+    IM = r'intersection_matrix::<impl at [^>]*>::'
+    T = IntTheory()
+    pos = ['Inside', 'OnBoundary', 'Outside']
+    dimn = ['Empty', 'ZeroDimensional', 'OneDimensional', 'TwoDimensional']
+    m = {(r, c): z3.Int('im_%s_%s' % (r[0], c[0])) for r in pos for c in pos}
+    dom = [z3.And(v >= 0, v <= 3) for v in m.values()]
+    order = [(r, c) for r in pos for c in pos]
+
+    def mask(spec):
+        cs = []
+        for ch, rc in zip(spec, order):
+            if ch == 'T':
+                cs.append(m[rc] != 0)
+            elif ch == 'F':
+                cs.append(m[rc] == 0)
+        return z3.And(cs)
+    specs = {'is_disjoint': mask('FF*FF****'), 'is_intersects': z3.Not(mask('FF*FF****')), 'is_within': mask('T*F**F***'), 'is_contains': mask('T*****FF*'),
+             'is_coveredby': z3.Or([mask(x) for x in ('T*F**F***', '*TF**F***', '**FT*F***', '**F*TF***')]),
+             'is_covers': z3.Or([mask(x) for x in ('T*****FF*', '*T****FF*', '***T**FF*', '****T*FF*')]),
+             'is_touches': z3.Or([mask(x) for x in ('FT*******', 'F**T*****', 'F***T****')])}
+
+    def row(ip, d):
+        return ('row', deref(d[1]).variant)
+
+    def cell(ip, d):
+        from mir2smt import SymEnum
+        return SymEnum(m[(deref(d[0])[1], deref(d[1]).variant)], dimn)
+    extra = dict(EXTRA)
+    extra[r'IntersectionMatrix::is_disjoint'] = ('geo', IM + 'is_disjoint')
+    uf = {'re:<LocationArray<LocationArray<Dimensions>> as Index<CoordPos>>::index': row, 're:<LocationArray<Dimensions> as Index<CoordPos>>::index': cell}
+    bad, npaths = [], 0
+    for name, want in specs.items():
+        ip = Interp(mir, T, extra, uf)
+        ip.max_steps = 200000
+        outs = ip.call_fn(mir.find('geo', IM + name), [Ref(lambda: [('matrix',)])], z3.BoolVal(True))
+        npaths += len(outs)
+        c = z3.And(dom)
+        bad.append(z3.And(c, z3.Not(z3.Or([pc for pc, _ in outs]))))
+        for pc, r in outs:
+            r = deref(r)
+            bad.append(z3.And(c, pc, (z3.BoolVal(r) if isinstance(r, bool) else r) != want))
+    st, info, model = check_unsat('named_predicates_match_masks', [z3.Or(bad)])
+    return dict(theory='Int (matrix entries as 0..3), all 4^9 matrices symbolically', functions=['IntersectionMatrix::{is_disjoint, is_intersects, is_within, is_contains, is_coveredby, is_covers, is_touches}'], paths=npaths, status=st, info=info, model=None, replay=('matrix_predicates', ''))
+
+
 # ---- C01: two units of the relate graph - the mod-2 boundary rule at a node, the angular order of edge ends
 
 @obligation('C01', 'boundary_node_mod2_rule', 'GeometryGraph::insert_boundary_point, whatever the node\'s current label on this operand (none / Inside / OnBoundary / Outside): a point that was already a boundary point becomes Inside (an even number of line ends is not boundary), in every other case it becomes OnBoundary; the label is written for this operand\'s own index (node lookup and the Label accessors uninterpreted)')
